@@ -141,7 +141,7 @@ theorem onAppendEntries_quiet {g : List GRec} (n : Node) (r : AeReq) (hc : Chain
   · next hrole =>
     split
     · exact ⟨hc, fun _ => ⟨hrole, rfl, rfl⟩⟩
-    · have hb := becomeFollower_spec n
+    · have hb := becomeFollower_spec { n with term := r.term }
       refine ⟨followerAppend_chain _ r (by rw [hb.2.1]; exact hc) hr, ?_⟩
       intro h; rw [followerAppend_role, hb.1] at h; cases h
 
